@@ -80,7 +80,7 @@ Proof.
   intros Hall. unfold get. destruct (classify s l) as [[s1 ms]|] eqn:Ec; [|reflexivity].
   pose proof (classify_all_hits _ _ _ _ Hall Ec) as ->.
   destruct (classify_frame _ _ _ _ Ec) as [_ [_ [Hf _]]].
-  cbn [download register fst]. destruct (_ >? _); cbn; assumption.
+  rewrite download_all_nil. cbn [register fst]. destruct (_ >? _); cbn; assumption.
 Qed.
 
 (* ------------------------------------------------------------------ *)
@@ -100,7 +100,7 @@ Lemma get_single_fetched_from s0 s q :
   classify s0 [q] = Some (s, [q]) -> fetched s = fetched s0 ->
   fetched (fst (get s0 [q])) = q_res q :: fetched s0.
 Proof.
-  intros Hc Hf. unfold get. rewrite Hc. cbn [download].
+  intros Hc Hf. unfold get. rewrite Hc. rewrite download_all_single. cbn [download].
   pose proof (worker_fetched s q) as Hw. destruct (worker s q) as [[s1 r] c]. cbn [fst] in Hw.
   destruct r as [b|].
   - cbn [download]. cbn [fst].
@@ -157,7 +157,7 @@ Proof.
   { destruct (dfind (disk s) (q_name q)) as [f|] eqn:E; [|reflexivity]. exfalso. apply Hnin.
     apply Hcov; [reflexivity|]. apply dexists_true. eauto. }
   assert (Hgoal : dfind (disk (fst (get s [q]))) (q_name q) = None).
-  { unfold get. rewrite (classify_single_miss s q Hnin). cbn [download].
+  { unfold get. rewrite (classify_single_miss s q Hnin). rewrite download_all_single. cbn [download].
     destruct (worker s q) as [[s1 r] c] eqn:Ew.
     destruct (worker_props _ _ _ _ _ HW Ew) as [W1 [E1 [_ [_ [_ [F1 _]]]]]].
     destruct (worker_fail_result s q Hfail) as [Hr Hc]. rewrite Ew in Hr, Hc. cbn in Hr, Hc. subst c.
@@ -183,7 +183,7 @@ Theorem tolerant_omits s q :
   ~ In (q_name q) (entries s) -> q_out q = DNotFound -> allow s = true ->
   snd (get s [q]) = Paths [].
 Proof.
-  intros Hn Ho Ha. unfold get. rewrite (classify_single_miss s q Hn). cbn [download]. unfold worker.
+  intros Hn Ho Ha. unfold get. rewrite (classify_single_miss s q Hn). rewrite download_all_single. cbn [download]. unfold worker.
   rewrite Ho. cbn [allow log_fetch]. rewrite Ha. cbn [download register map remove_first].
   rewrite name_eqb_refl. reflexivity.
 Qed.
@@ -192,7 +192,7 @@ Theorem strict_raises s q :
   ~ In (q_name q) (entries s) -> q_out q = DNotFound -> allow s = false ->
   snd (get s [q]) = Raised.
 Proof.
-  intros Hn Ho Ha. unfold get. rewrite (classify_single_miss s q Hn). cbn [download]. unfold worker.
+  intros Hn Ho Ha. unfold get. rewrite (classify_single_miss s q Hn). rewrite download_all_single. cbn [download]. unfold worker.
   rewrite Ho. cbn [allow log_fetch]. rewrite Ha. reflexivity.
 Qed.
 
@@ -206,8 +206,8 @@ Proof.
   intros HW Hn Ht. unfold get. destruct (classify s l) as [[s1 ms]|] eqn:Ec; [|now left].
   destruct (classify_props _ _ _ _ HW Ec) as [W1 [_ [_ [_ [_ [_ [Inc1 _]]]]]]].
   destruct (classify_frame _ _ _ _ Ec) as [Fr1 _].
-  destruct (download s1 ms) as [[s2 bs] st] eqn:Ed.
-  destruct (download_props _ _ _ _ _ W1 Ed) as [W2 [_ [_ [_ [_ [_ [_ [R2 [D2 _]]]]]]]]].
+  destruct (download_all s1 ms) as [[s2 bs] st] eqn:Ed.
+  destruct (download_all_spec _ _ _ _ _ W1 Ed) as [W2 [_ [_ [_ [_ [_ [_ [R2 [D2 _]]]]]]]]].
   assert (H2 : dfind (disk s2) n = dfind (disk s) n).
   { rewrite D2; [now apply Fr1|]. intros q Hq. apply Inc1 in Hq. split; intros ->; [apply Hn | apply Ht]; now apply in_map. }
   assert (Hev : forall sx, disk sx = disk s2 ->
@@ -216,12 +216,74 @@ Proof.
     apply evict_loop_dfind_sub in E. congruence. }
   destruct st; cbn [fst].
   - destruct (register s2 (map q_name l) ms bs) as [s3 p3] eqn:Er.
-    destruct (register_props _ _ _ _ _ _ W2 Er R2) as [_ [D3 _]].
+    destruct (register_props _ _ _ _ _ _ W2 Er (R2 eq_refl)) as [_ [D3 _]].
     set (s4 := if _ >? _ then _ else _).
     assert (Hd4 : disk s4 = disk s2) by (unfold s4; destruct (_ >? _); cbn; assumption).
     cbn [fst]. destruct ms; [left; congruence | now apply Hev].
   - apply Hev. destruct (register_existing_props ms s2 W2) as [_ [D _]]. exact D.
   - left. cbn. assumption.
+Qed.
+
+(* ------------------------------------------------------------------ *)
+(* parallel = sequential when no download raises                        *)
+(* ------------------------------------------------------------------ *)
+Lemma download_app l1 : forall s l2 s1 bs1,
+  download s l1 = (s1, bs1, DlOk) ->
+  download s (l1 ++ l2) = (let '(s2, bs2, st2) := download s1 l2 in (s2, bs1 ++ bs2, st2)).
+Proof.
+  induction l1 as [|q l1 IH]; intros s l2 s1 bs1 H; cbn [download app] in *.
+  - injection H as <- <-. destruct (download s l2) as [[a b] c]. reflexivity.
+  - destruct (worker s q) as [[sa r] c] eqn:Ew. destruct r as [b|]; [|destruct c; discriminate].
+    destruct (download sa l1) as [[sb bsb] stb] eqn:Ed. injection H as <- <- ->.
+    rewrite (IH sa l2 sb bsb Ed). destruct (download sb l2) as [[x y] z]. reflexivity.
+Qed.
+
+Lemma download_chunks_seq cs : forall s s' bs,
+  download_chunks s cs = (s', bs, DlOk) -> download s (concat cs) = (s', bs, DlOk).
+Proof.
+  induction cs as [|c cs IH]; intros s s' bs H; cbn [download_chunks concat] in *.
+  - injection H as <- <-. reflexivity.
+  - destruct (download s c) as [[s1 bs1] st1] eqn:E1.
+    destruct (download_chunks s1 cs) as [[s2 bs2] st2] eqn:E2. injection H as <- <- Hm.
+    apply merge_ok in Hm. destruct Hm as [-> ->].
+    rewrite (download_app c s (concat cs) s1 bs1 E1). rewrite (IH _ _ _ E2). reflexivity.
+Qed.
+
+(* If the chunked parallel download completes without a raise it computes exactly what the
+   sequential loop computes - state, success flags and status. *)
+Theorem parallel_equals_sequential s ms s' bs :
+  download_all s ms = (s', bs, DlOk) -> download s ms = (s', bs, DlOk).
+Proof.
+  unfold download_all. destruct (par s && Nat.ltb 1 (length ms)); [|tauto].
+  intros H. apply download_chunks_seq in H. now rewrite concat_chunks_of in H by lia.
+Qed.
+
+Lemma download_app_inv l1 : forall s l2 s' bs,
+  download s (l1 ++ l2) = (s', bs, DlOk) ->
+  exists s1 bs1 bs2, download s l1 = (s1, bs1, DlOk) /\ download s1 l2 = (s', bs2, DlOk) /\ bs = bs1 ++ bs2.
+Proof.
+  induction l1 as [|q l1 IH]; intros s l2 s' bs H; cbn [download app] in *.
+  - exists s, [], bs. repeat split; assumption.
+  - destruct (worker s q) as [[sa r] c] eqn:Ew. destruct r as [b|]; [|destruct c; discriminate].
+    destruct (download sa (l1 ++ l2)) as [[sb bsb] stb] eqn:Ed. injection H as <- <- ->.
+    destruct (IH _ _ _ _ Ed) as [s1 [bs1 [bs2 [A [B Cc]]]]]. rewrite A.
+    exists s1, (b :: bs1), bs2. repeat split; [assumption | now rewrite Cc].
+Qed.
+
+Lemma download_seq_chunks cs : forall s s' bs,
+  download s (concat cs) = (s', bs, DlOk) -> download_chunks s cs = (s', bs, DlOk).
+Proof.
+  induction cs as [|c cs IH]; intros s s' bs H; cbn [download_chunks concat] in *.
+  - cbn in H. injection H as <- <-. reflexivity.
+  - destruct (download_app_inv c s (concat cs) s' bs H) as [s1 [bs1 [bs2 [A [B ->]]]]].
+    rewrite A. rewrite (IH _ _ _ B). reflexivity.
+Qed.
+
+Theorem sequential_equals_parallel s ms s' bs :
+  download s ms = (s', bs, DlOk) -> download_all s ms = (s', bs, DlOk).
+Proof.
+  unfold download_all. destruct (par s && Nat.ltb 1 (length ms)); [|tauto].
+  intros H. apply download_seq_chunks. now rewrite concat_chunks_of by lia.
 Qed.
 
 (* ------------------------------------------------------------------ *)
@@ -242,15 +304,15 @@ Proof.
   intros HW. unfold get. destruct (classify s l) as [[s1 ms]|] eqn:Ec; [|reflexivity].
   destruct (classify_props _ _ _ _ HW Ec) as [W1 _].
   destruct (classify_frame _ _ _ _ Ec) as [Fr1 _].
-  destruct (download s1 ms) as [[s2 bs] st] eqn:Ed.
-  destruct (download_props _ _ _ _ _ W1 Ed) as [W2 [_ [_ [_ [_ [_ [_ [R2 [D2 _]]]]]]]]].
+  destruct (download_all s1 ms) as [[s2 bs] st] eqn:Ed.
+  destruct (download_all_spec _ _ _ _ _ W1 Ed) as [W2 [_ [_ [_ [_ [_ [_ [R2 [D2 _]]]]]]]]].
   assert (H2 : dfind (disk s2) (FName j) = dfind (disk s) (FName j)).
   { rewrite D2; [apply Fr1|].
     - intros Hin. apply in_map_iff in Hin. destruct Hin as [q [E _]]. discriminate.
     - intros q _. split; discriminate. }
   destruct st; cbn [fst].
   - destruct (register s2 (map q_name l) ms bs) as [s3 p3] eqn:Er.
-    destruct (register_props _ _ _ _ _ _ W2 Er R2) as [W3 [D3 _]].
+    destruct (register_props _ _ _ _ _ _ W2 Er (R2 eq_refl)) as [W3 [D3 _]].
     set (s4 := if _ >? _ then _ else _).
     assert (Hd4 : disk s4 = disk s2 /\ W s4).
     { unfold s4. destruct (_ >? _); cbn; split; try assumption. apply W_set_maxb; [assumption|].
